@@ -242,7 +242,8 @@ def drain {α σ} (next : σ → Outcome α σ) : Nat → σ → Option (List α
 
 What a consumer of an iteration sees at each step: an item, a panic, or the END of the iteration (`None`
 from the source while the consumer still wanted items).  The loops below are the ones the macros emit
-(konst_kernel/src/iter/combinator_methods.rs `take`/`zip`, iter_eval_macro.rs `nth`/`next`/`find`) around
+(konst_kernel/src/iter.rs `__cim_take_guard!`, iter/combinator_methods.rs `take`/`zip`, iter_eval_macro.rs
+`nth`/`next`/`find`) around
 `iter.next()`, generic in the source iterator `next : σ → Outcome α σ`; the harness instantiates them with
 `RangeFromIter::next`, which has no `None` branch at all: at `MAX_VAL` it panics (`debug_assert!`). -/
 
@@ -276,18 +277,24 @@ def forEachBreak {α σ} (next : σ → Outcome α σ) : σ → Nat → List (To
     | .done => [.end_]
     | .item x s' => .v x :: (if rem = 0 then [] else forEachBreak next s' rem)
 
-/-- `it, take(k)`: `loop { let item = next() else break; if rem == 0 { break } else { rem -= 1 }; body }` —
-    the test comes AFTER the pull, so `k + 1` items are pulled.  `None` with `rem > 0` (fewer than `k` items
-    reached the body) is the observation `end`. -/
+/-- `it, take(k)` as emitted since 9827f8a / 7ecb606 (`__cim_take_guard!` in iter.rs, `take` in
+    combinator_methods.rs):
+    `loop { if rem == 0 { break }; let item = next() else break; if rem == 0 { break } else { rem -= 1 }; body }` —
+    the countdown is tested at the TOP of the loop, before the source is pulled, so exactly `k` items are pulled
+    (`takeLoop_eq_pulls`); the test `take` emits in place after the pull is still there and can no longer be true.
+    `None` from the source (only reached with `rem > 0`: fewer than `k` items got to the body) is the
+    observation `end`. -/
 def takeLoop {α σ} (next : σ → Outcome α σ) : σ → Nat → List (Tok α)
   | s, rem =>
-    match next s with
-    | .panic => [.panic]
-    | .done => if rem = 0 then [] else [.end_]
-    | .item x s' =>
-      match rem with
-      | 0 => []
-      | rem + 1 => .v x :: takeLoop next s' rem
+    if rem = 0 then []                 -- `__cim_take_guard!`: `if rem == 0 { break }` before `next()`
+    else
+      match next s with
+      | .panic => [.panic]
+      | .done => [.end_]
+      | .item x s' =>
+        match rem with
+        | 0 => []                      -- `take`'s own `if rem == 0 { break }`: dead after the guard
+        | rem + 1 => .v x :: takeLoop next s' rem
 
 /-- `it, zip(other)` where `other` still has `m` items:
     `loop { let item = next() else break; let item = if let Some(e) = other.next() { (item, e) } else { break }; body }` -/
